@@ -3,6 +3,7 @@
 # undo the change. Usage: tools/seedeval.sh <ID> <patch.diff> [ID...]
 # Exit status: 0 if at least one check reported a VIOLATION (caught), 1 if none did, 2 on setup problems.
 set -u
+export VERIF_EVIDENCE_DIR=/verif/.build/evidence-scratch
 cd "$(dirname "$0")/.."
 id="$1"; patch="$2"; shift 2
 checks="${*:-$id}"
